@@ -9,6 +9,13 @@ From CG Require Import Scalar.
 Import ListNotations.
 Set Implicit Arguments.
 
+(* textbook list zip, used on the specification side of the theorems *)
+Fixpoint lzip (A B C : Type) (f : A -> B -> C) (l1 : list A) (l2 : list B) : list C :=
+  match l1, l2 with
+  | a :: l1', b :: l2' => f a b :: lzip f l1' l2'
+  | _, _ => []
+  end.
+
 Record V1 (F : Type) := mkV1 { v1x : F }.
 Record V2 (F : Type) := mkV2 { v2x : F; v2y : F }.
 Record V3 (F : Type) := mkV3 { v3x : F; v3y : F; v3z : F }.
